@@ -25,6 +25,13 @@ def showPacket : Packet → String
   | .data cid pl => s!"{cid.cls}/{cid.id}:{toHex pl}"
   | .crcError => "crc"
 
+/-- `process()` takes any iterable of byte values: the harness hands the chunk over as bytes (P), bytearray (A), list (L),
+    memoryview (M), iterator (I) or generator (G); to the model they are the same bytes -/
+def feedOp (op : String) : List Char :=
+  match op.toList with
+  | c :: h => if "ALMIG".toList.contains c then 'P' :: h else c :: h
+  | [] => []
+
 /-- `ubx|<ops>`: ops separated by `;` — `P<hex>` process, `K` packet(), `D` packet() until the sentinel, `R` restart,
     `E` empty_queue, `F<cids>` set_filters, `S<cid>` set_filter (filter None is the start state).
     `stable=true`: payloads are values here; that the code's payload objects behave like values is what
@@ -32,11 +39,12 @@ def showPacket : Packet → String
 def runUbx (ops : String) : String :=
   let step (acc : Parser × List String) (op : String) : Parser × List String :=
     let (p, out) := acc
-    match op.toList with
+    match feedOp op with
     | 'P' :: h => (p.process (parseHex (String.mk h)), out)
     | ['K'] => let (r, p') := p.packet; (p', out ++ [match r with | some x => showPacket x | none => "none"])
     | ['D'] => ({ p with queue := [] }, out ++ p.queue.map showPacket ++ ["."])
     | ['R'] => (p.restart, out)
+    | 'T' :: _ => (p, out)                  -- time passing between two calls: no part of the parser's state
     | ['E'] => (p.emptyQueue, out)
     | 'F' :: c => (p.setFilters (parseCids (String.mk c)), out)
     | 'S' :: c => (p.setFilter (parseCid (String.mk c)), out)
@@ -46,7 +54,7 @@ def runUbx (ops : String) : String :=
 
 def runNmea (ops : String) : String :=
   let step (p : Nmea.P) (op : String) : Nmea.P :=
-    match op.toList with
+    match feedOp op with
     | 'P' :: h => p.process (parseHex (String.mk h))
     | ['R'] => p.restart
     | _ => p
@@ -637,6 +645,8 @@ def runCid (arg : String) : String :=
 def handle (line : String) : String :=
   match line.trim.splitOn "|" with
   | ["ubx", ops] => runUbx ops
+  | "ubxil" :: _ :: seqs => " ## ".intercalate (seqs.map runUbx)      -- values do not share state: each object as if alone
+  | "nmeail" :: _ :: seqs => " ## ".intercalate (seqs.map runNmea)
   | ["cid", a] => runCid a
   | ["nmea", ops] => runNmea ops
   | "srv" :: rest => runSrv rest
